@@ -13,7 +13,7 @@ from gvmon.monitors import contracts
 
 RULE = ("lines = reference rendering of (record, dialect point); the full cross product of 48 dialect points x attribute "
         "shape tuples (plain / blank-containing / each escaped reserved character / multi-valued / flag, 1..3 attributes "
-        "quick, 1..4 thorough) x extra columns x '.' coordinates is executed, then random records; non-trivial = >= 2 "
+        "quick, 1..5 thorough) x extra columns x '.' coordinates is executed, then random records; non-trivial = >= 2 "
         "attributes; distinct = distinct (dialect point, shape tuple, extras, dots) or distinct random line")
 REQUIRED = ["feature_from_line calls", "byte-identical prints", "strict=False comparisons", "_reconstruct contract evaluations"]
 ASSUMPTIONS = [
@@ -127,7 +127,7 @@ def base_cols(dots):
 def run(ctx):
     rng = ctx.rng
     pts = M.points()
-    maxn = 3 if ctx.tier == "quick" else 4
+    maxn = 3 if ctx.tier == "quick" else 5
     esc_chars = R.RESERVED_LIST
     idx = 0
     n = nt = 0
